@@ -16,10 +16,40 @@ Definition cfg_ok (c : cfgR) : Prop :=
 
 (* admissible values (only with grids): one value per variable, not beyond a boundary declared hard, and within
    the grid along a periodic variable whose grid covers part of the period *)
-Definition adm (c : cfgR) (x : list valueR) : Prop :=
-  c_use_grids c = true -> All3 (fun v b xv => adm_var v b (scR xv)) (c_vars c) (c_geom0 c) x.
-Definition adm_event (c : cfgR) (e : eventR) : Prop :=
-  match e with EStep i => adm c (i_x i) | ESave => True end.
+(* well-formed grid boundaries (only with grids) *)
+Definition geom_ok (c : cfgR) (g : list boundR) : Prop := c_use_grids c = true -> All2 bound_ok (c_vars c) g.
+
+Definition adm (c : cfgR) (g0 : list boundR) (x : list valueR) : Prop :=
+  c_use_grids c = true -> All3 (fun v b xv => adm_var v b (scR xv)) (c_vars c) g0 x.
+
+(* restart with rebinGrids and new boundaries g' (only with grids): the state was written with keepHills, the new
+   grids are well formed, and every hill deposited so far is at least min_buffer bins inside their expandable
+   edges (as expandBoundaries would have kept them; vacuous when no variable has expandBoundaries) *)
+Definition rebin_ok (c : cfgR) (g' : list boundR) (hills : list hillR) : Prop :=
+  c_use_grids c = true ->
+  c_keep c = true /\ All2 bound_ok (c_vars c) g' /\
+  forall h, In h hills -> All3 (clear_var c) (c_vars c) g' (h_c h).
+
+(* the base geometry (boundaries of the configuration) after an event *)
+Definition next_base (c : cfgR) (g0 : list boundR) (e : eventR) : list boundR :=
+  match e with ERestart (Some g') => if c_use_grids c then g' else g0 | _ => g0 end.
+
+(* admissible history, from the specification state s with base geometry g0 *)
+Fixpoint hist_ok (c : cfgR) (g0 : list boundR) (s : sstate) (hist : list eventR) : Prop :=
+  match hist with
+  | [] => True
+  | e :: r =>
+      match e with
+      | EStep i => adm c g0 (i_x i)
+      | ESave => True
+      | ERestart None => True
+      | ERestart (Some g') => rebin_ok c g' (s_all s)
+      end /\ hist_ok c (next_base c g0 e) (spec_event c s e) r
+  end.
+
+(* the base geometry at the end of a history *)
+Definition final_base (c : cfgR) (hist : list eventR) : list boundR := fold_left (next_base c) hist (c_geom0 c).
+Definition history_ok (c : cfgR) (hist : list eventR) : Prop := hist_ok c (c_geom0 c) (mkS [] [] (c_geom0 c)) hist.
 
 Lemma scR_nth (l : valueR) : scR l = nth 0 l 0.
 Proof. destruct l; reflexivity. Qed.
@@ -54,6 +84,9 @@ Section Refine.
   Variable c : cfgR.
   Hypothesis Hok : cfg_ok c.
   Local Notation vs := (c_vars c).
+  (* base geometry: the boundaries of the (current) configuration *)
+  Variable g0 : list boundR.
+  Hypothesis Hg0 : geom_ok c g0.
   Local Notation GS := (All3 (fun v b b' => gstep v b b') vs).
   Local Notation ADM := (All3 (fun v b xv => adm_var v b (scR xv)) vs).
 
@@ -70,9 +103,10 @@ Section Refine.
 
   Record Inv (m : stateR) (s : sstate) : Prop := mkInv {
     inv_new : st_new m = s_pend s;
-    inv_old : st_old m = if c_keep c then s_tab s else [];
+    inv_old : c_keep c = true -> st_old m = s_tab s;
+    inv_sub : Dropped (fun _ => True) (s_tab s) (st_old m);
     inv_geom : st_geom m = s_geom s;
-    inv_grel : c_use_grids c = true -> GS (c_geom0 c) (s_geom s);
+    inv_grel : c_use_grids c = true -> GS g0 (s_geom s);
     inv_e : forall ix, index_ok (gsizes (s_geom s)) ix = true ->
               st_e m ix = Esum vs (s_tab s) (centre Rops vs (s_geom s) ix);
     inv_g : forall ix k, index_ok (gsizes (s_geom s)) ix = true -> (k < length vs)%nat ->
@@ -83,14 +117,16 @@ Section Refine.
     inv_clear : c_use_grids c = true -> forall h, In h (s_all s) -> Clear (s_geom s) h
   }.
 
-  Lemma init_inv : Inv (init_state Rops c) (mkS [] [] (c_geom0 c)).
+  Lemma init_inv : g0 = c_geom0 c -> Inv (init_state Rops c) (mkS [] [] (c_geom0 c)).
   Proof.
+    intros Eg0.
     constructor; cbn [init_state st_new st_old st_e st_g st_geom st_off_old st_off_new s_tab s_pend s_geom s_all app].
     - reflexivity.
-    - destruct (c_keep c); reflexivity.
+    - intros _. reflexivity.
+    - apply D_nil.
     - reflexivity.
-    - intros G. apply All3_refl_gstep. pose proof Hok as (_ & _ & H). destruct (H G) as [Hb _].
-      symmetry. apply (All2_length _ _ _ Hb).
+    - intros G. rewrite <- Eg0. apply All3_refl_gstep.
+      symmetry. apply (All2_length _ _ _ (Hg0 G)).
     - intros ix _. cbn. lra.
     - intros ix k _ _. cbn. lra.
     - intros _. apply D_nil.
@@ -100,15 +136,15 @@ Section Refine.
   Qed.
 
   (* facts about the current geometry *)
-  Lemma geom_facts s : c_use_grids c = true -> GS (c_geom0 c) (s_geom s) ->
+  Lemma geom_facts s : c_use_grids c = true -> GS g0 (s_geom s) ->
     All2 bound_ok vs (s_geom s) /\ Forall gvar_ok vs /\ length (s_geom s) = length vs.
   Proof.
-    intros G Hg. pose proof Hok as (_ & _ & H). destruct (H G) as [Hb Hgv].
-    split; [apply (All2_bound_gstep vs _ _ Hb Hg)|]. split; [exact Hgv|].
+    intros G Hg. pose proof Hok as (_ & _ & H). destruct (H G) as [_ Hgv].
+    split; [apply (All2_bound_gstep vs _ _ (Hg0 G) Hg)|]. split; [exact Hgv|].
     destruct (All3_length _ _ _ _ Hg) as [_ Hl]. symmetry. exact Hl.
   Qed.
 
-  Lemma adm_current s x : c_use_grids c = true -> GS (c_geom0 c) (s_geom s) -> adm c x -> ADM (s_geom s) x.
+  Lemma adm_current s x : c_use_grids c = true -> GS g0 (s_geom s) -> adm c g0 x -> ADM (s_geom s) x.
   Proof.
     intros G Hg Ha. destruct (geom_facts s G Hg) as (_ & Hgv & _).
     apply (proj1 (All3_adm_gstep vs _ _ x Hgv Hg)). apply Ha. exact G.
@@ -123,9 +159,9 @@ Section Refine.
   Lemma far_Fk g h x k j : Far g h -> ADM g x -> index_ok (gsizes g) (gbins Rops vs g x) = false -> Fk vs h x k j = 0.
   Proof. intros Hf Ha Ho. apply Fk_far. apply Hf; assumption. Qed.
 
-  Lemma energy_spec m s x : Inv m s -> adm c x -> calc_energy Rops c m x = spec_energy c s x.
+  Lemma energy_spec m s x : Inv m s -> adm c g0 x -> calc_energy Rops c m x = spec_energy c s x.
   Proof.
-    intros HI Ha. destruct HI as [Hnew Hold Hgeom Hgrel He Hg Hoo Hon Hng Hcl].
+    intros HI Ha. destruct HI as [Hnew Hold Hsub Hgeom Hgrel He Hg Hoo Hon Hng Hcl].
     unfold calc_energy, spec_energy. rewrite (inside_eq m s x Hgeom), hills_energy_R, Hnew.
     destruct (in_grid c (s_geom s) x) eqn:Hin.
     - unfold in_grid in Hin. apply andb_prop in Hin. destruct Hin as [G Hin].
@@ -139,10 +175,10 @@ Section Refine.
       + destruct (Hng eq_refl) as (-> & -> & _). rewrite !Esum_nil. lra.
   Qed.
 
-  Lemma force_spec m s x k j : Inv m s -> adm c x -> (k < length vs)%nat ->
+  Lemma force_spec m s x k j : Inv m s -> adm c g0 x -> (k < length vs)%nat ->
     nth j (calc_force Rops c m x k) 0 = spec_force c s x k j.
   Proof.
-    intros HI Ha Hk. destruct HI as [Hnew Hold Hgeom Hgrel He Hg Hoo Hon Hng Hcl].
+    intros HI Ha Hk. destruct HI as [Hnew Hold Hsub Hgeom Hgrel He Hg Hoo Hon Hng Hcl].
     unfold calc_force, spec_force. rewrite (inside_eq m s x Hgeom), Hnew.
     destruct (in_grid c (s_geom s) x) eqn:Hin.
     - unfold in_grid in Hin. apply andb_prop in Hin. destruct Hin as [G Hin].
@@ -177,9 +213,9 @@ Section Refine.
   Lemma mb_covers : forall v, In v vs -> 6 * v_sigma v < IZR (min_buffer Rops c) * v_width v.
   Proof. intros v Hin. apply min_buffer_covers; [exact Hsig|exact Hvars|exact Hin]. Qed.
 
-  Lemma expand_inv m s x : Inv m s -> adm c x -> Inv (update_grid_params Rops c m x) (spec_expand c s x).
+  Lemma expand_inv m s x : Inv m s -> adm c g0 x -> Inv (update_grid_params Rops c m x) (spec_expand c s x).
   Proof.
-    intros HI Ha. pose proof HI as HI0. destruct HI as [Hnew Hold Hgeom Hgrel He Hg Hoo Hon Hng Hcl].
+    intros HI Ha. pose proof HI as HI0. destruct HI as [Hnew Hold Hsub Hgeom Hgrel He Hg Hoo Hon Hng Hcl].
     unfold update_grid_params, spec_expand, next_geom. rewrite Hgeom.
     destruct (c_use_grids c && existsb (@v_expand R) vs) eqn:E; [|rewrite same_sstate; exact HI0].
     destruct (geom_changed (s_geom s) (expand_geom Rops c vs (s_geom s) x)) eqn:Ec; [|rewrite same_sstate; exact HI0].
@@ -192,6 +228,7 @@ Section Refine.
     constructor; cbn [st_new st_old st_e st_g st_geom st_off_old st_off_new s_tab s_pend s_geom s_all].
     - exact Hnew.
     - exact Hold.
+    - exact Hsub.
     - reflexivity.
     - intros _. apply (All3_gstep_trans vs _ _ _ (Hgrel G) Hs).
     - intros ix Hix. destruct (remap_lemma c vs (s_geom s) g' ix Hvars Hgv Hb Hs mb_covers Hix) as [R1 R2].
@@ -231,11 +268,11 @@ Section Refine.
       + intros v Hin. apply margin_covers; [exact Hsig|exact Hvars|exact Hin].
   Qed.
 
-  Lemma deposit_inv m s i : Inv m s -> adm c (i_x i) ->
+  Lemma deposit_inv m s i : Inv m s -> adm c g0 (i_x i) ->
     (c_use_grids c = true -> All3 (fun v b' xv => buffer_ok c v b' (scR xv)) vs (s_geom s) (i_x i)) ->
     Inv (update_bias Rops c m i) (spec_dep c s i).
   Proof.
-    intros HI Ha Hbuf. pose proof HI as HI0. destruct HI as [Hnew Hold Hgeom Hgrel He Hg Hoo Hon Hng Hcl].
+    intros HI Ha Hbuf. pose proof HI as HI0. destruct HI as [Hnew Hold Hsub Hgeom Hgrel He Hg Hoo Hon Hng Hcl].
     unfold update_bias, spec_dep. rewrite eligible_deposit.
     destruct (eligible c i) eqn:El; [|exact HI0].
     assert (Hw : nmul Rops (c_weight c) (if c_wt c then wt_scale Rops c (wt_energy_here Rops c m (i_x i)) else n1 Rops)
@@ -248,6 +285,7 @@ Section Refine.
     constructor; cbn [st_new st_old st_e st_g st_geom st_off_old st_off_new s_tab s_pend s_geom s_all].
     - rewrite Hnew. reflexivity.
     - exact Hold.
+    - exact Hsub.
     - exact Hgeom.
     - exact Hgrel.
     - exact He.
@@ -274,11 +312,15 @@ Section Refine.
   Lemma project_inv m s : Inv m s -> c_use_grids c = true ->
     Inv (project Rops c m) (mkS (s_tab s ++ s_pend s) [] (s_geom s)).
   Proof.
-    intros HI G. destruct HI as [Hnew Hold Hgeom Hgrel He Hg Hoo Hon Hng Hcl].
+    intros HI G. destruct HI as [Hnew Hold Hsub Hgeom Hgrel He Hg Hoo Hon Hng Hcl].
     destruct (geom_facts s G (Hgrel G)) as (Hb & Hgv & Hlen).
     unfold project. constructor; cbn [st_new st_old st_e st_g st_geom st_off_old st_off_new s_tab s_pend s_geom s_all].
     - reflexivity.
-    - rewrite Hold, Hnew. destruct (c_keep c); reflexivity.
+    - intros Ek. rewrite Ek, (Hold Ek), Hnew. reflexivity.
+    - rewrite Hnew. destruct (c_keep c) eqn:Ek.
+      + rewrite (Hold eq_refl). apply Dropped_refl.
+      + generalize (s_tab s ++ s_pend s). intros l.
+        induction l as [|h l IH]; [apply D_nil|apply D_drop; [exact I|exact IH]].
     - exact Hgeom.
     - exact Hgrel.
     - intros ix Hix. rewrite (He _ Hix), Hgeom, hills_energy_R, Hnew, Esum_app. cbn [nadd n0 Rops]. lra.
@@ -298,13 +340,13 @@ Section Refine.
   Qed.
 
   (* ---- update ---- *)
-  Lemma step_inv m s i : Inv m s -> adm c (i_x i) -> Inv (step_state Rops c m i) (spec_step c s i).
+  Lemma step_inv m s i : Inv m s -> adm c g0 (i_x i) -> Inv (step_state Rops c m i) (spec_step c s i).
   Proof.
     intros HI Ha. unfold step_state, spec_step.
     pose proof (expand_inv m s (i_x i) HI Ha) as H1.
     assert (Hbuf : c_use_grids c = true ->
               All3 (fun v b' xv => buffer_ok c v b' (scR xv)) vs (s_geom (spec_expand c s (i_x i))) (i_x i)).
-    { intros G. destruct HI as [_ _ _ Hgrel _ _ _ _ _ _].
+    { intros G. destruct HI as [_ _ _ _ Hgrel _ _ _ _ _ _].
       destruct (geom_facts s G (Hgrel G)) as (_ & _ & Hlen).
       assert (Hlx : length (i_x i) = length vs).
       { specialize (Ha G). destruct (All3_length _ _ _ _ Ha) as [_ Hl]. symmetry. exact Hl. }
@@ -316,23 +358,177 @@ Section Refine.
     - destruct (i_it i mod c_gfreq c =? 0)%Z; [|exact H2]. unfold spec_tabulate. rewrite G. exact H2.
   Qed.
 
-  Lemma event_inv m s e : Inv m s -> adm_event c e -> Inv (apply_event Rops c m e) (spec_event c s e).
+  (* ---- read_state_data in a fresh instance (same geometry) ---- *)
+  Lemma clear_length g h : Clear g h -> length (h_c h) = length vs.
+  Proof. intros H. destruct (All3_length _ _ _ _ H) as [_ Hl]. symmetry. exact Hl. Qed.
+
+  Lemma near_filter_dropped s hs : c_use_grids c = true -> GS g0 (s_geom s) ->
+    (forall h, In h hs -> Clear (s_geom s) h) ->
+    Dropped (Far (s_geom s)) hs (filter (near_hill Rops c (s_geom s)) hs).
   Proof.
-    intros HI Ha. destruct e as [i|]; cbn [apply_event spec_event].
-    - apply step_inv; assumption.
-    - apply tabulate_inv; assumption.
+    intros G Hgr Hcl. destruct (geom_facts s G Hgr) as (Hb & Hgv & Hlen).
+    apply Dropped_filter. intros h Hin Hn. destruct h as [it w x]. unfold near_hill in Hn. cbn [h_c] in Hn.
+    apply (not_near_far _ _ G Hb Hgv Hlen); [|exact Hn].
+    apply (clear_length (s_geom s) (mkHill it w x)). apply Hcl. exact Hin.
   Qed.
 
-  Lemma run_inv hist : Forall (adm_event c) hist -> Inv (final_state Rops c hist) (spec_run c hist).
+  Lemma read_inv m s : Inv m s -> (c_use_grids c = true -> s_pend s = []) -> Inv (read_state Rops c m) s.
   Proof.
-    unfold final_state, spec_run.
-    assert (Hgen : forall m s, Inv m s -> Forall (adm_event c) hist ->
-              Inv (fold_left (apply_event Rops c) hist m) (fold_left (spec_event c) hist s)).
-    { induction hist as [|e hist IH]; intros m s HI HF; cbn [fold_left]; [exact HI|].
-      inversion HF as [|e' l' He Hl]; subst. apply IH; [apply event_inv; assumption|exact Hl]. }
-    intros HF. apply Hgen; [apply init_inv|exact HF].
+    intros HI Hp. destruct HI as [Hnew Hold Hsub Hgeom Hgrel He Hg Hoo Hon Hng Hcl].
+    unfold read_state, state_hills. destruct (c_use_grids c) eqn:G; cbn [negb orb].
+    - specialize (Hp eq_refl). specialize (Hgrel eq_refl). specialize (Hoo eq_refl). specialize (Hon eq_refl).
+      specialize (Hcl eq_refl). rewrite Hp in *.
+      assert (Hoff_new : st_off_new m = []) by (apply (Dropped_nil _ _ Hon)).
+      assert (Hgr' : c_use_grids c = true -> GS g0 (s_geom s)) by (intros _; exact Hgrel).
+      constructor; cbn [st_new st_old st_e st_g st_geom st_off_old st_off_new].
+      + rewrite Hp. reflexivity.
+      + intros Ek. rewrite Ek, (Hold Ek), Hnew, app_nil_r. reflexivity.
+      + destruct (c_keep c) eqn:Ek.
+        * rewrite (Hold eq_refl), Hnew, app_nil_r. apply Dropped_refl.
+        * rewrite Hoff_new, app_nil_r. apply (Dropped_mono (Far (s_geom s))); [intros; exact I|exact Hoo].
+      + exact Hgeom.
+      + exact Hgr'.
+      + exact He.
+      + exact Hg.
+      + intros _. rewrite Hgeom. destruct (c_keep c) eqn:Ek.
+        * rewrite (Hold eq_refl), Hnew, app_nil_r. apply (near_filter_dropped s _ G Hgrel).
+          intros h Hin. apply Hcl. unfold s_all. apply in_or_app. left. exact Hin.
+        * rewrite Hoff_new, app_nil_r. apply (Dropped_trans _ _ _ Hoo).
+          apply (near_filter_dropped s _ G Hgrel).
+          intros h Hin. apply Hcl. unfold s_all. apply in_or_app. left.
+          apply (Dropped_In _ _ _ Hoo). exact Hin.
+      + intros _. rewrite Hp. apply D_nil.
+      + intros G'. rewrite G in G'. discriminate G'.
+      + intros _. exact Hcl.
+    - destruct (Hng eq_refl) as (Ht & Ho1 & Ho2).
+      assert (Hold' : st_old m = []).
+      { rewrite Ht in Hsub. apply (Dropped_nil _ _ Hsub). }
+      constructor; cbn [st_new st_old st_e st_g st_geom st_off_old st_off_new].
+      + rewrite Hold', Hnew. reflexivity.
+      + intros _. rewrite Ht. reflexivity.
+      + rewrite Ht. apply D_nil.
+      + exact Hgeom.
+      + intros G'. rewrite G in G'. discriminate G'.
+      + exact He.
+      + exact Hg.
+      + intros G'. rewrite G in G'. discriminate G'.
+      + intros G'. rewrite G in G'. discriminate G'.
+      + intros _. auto.
+      + intros G'. rewrite G in G'. discriminate G'.
+  Qed.
+
+  Lemma tabulate_pend s : c_use_grids c = true -> s_pend (spec_tabulate c s) = [].
+  Proof. intros G. unfold spec_tabulate. rewrite G. reflexivity. Qed.
+
+  Lemma restart_inv m s : Inv m s -> Inv (restart_state Rops c m None) (spec_restart c s None).
+  Proof.
+    intros HI. unfold restart_state, spec_restart. apply read_inv; [apply tabulate_inv; exact HI|apply tabulate_pend].
+  Qed.
+
+  Lemma event_inv m s e : Inv m s ->
+    match e with EStep i => adm c g0 (i_x i) | ERestart (Some _) => False | _ => True end ->
+    Inv (apply_event Rops c m e) (spec_event c s e).
+  Proof.
+    intros HI Ha. destruct e as [i| |[g'|]]; cbn [apply_event spec_event].
+    - apply step_inv; assumption.
+    - apply tabulate_inv; assumption.
+    - contradiction.
+    - apply restart_inv; assumption.
   Qed.
 End Refine.
+
+(* ================================================================== restart with rebinGrids (new base geometry) *)
+
+Lemma s_all_save c s : s_all (spec_tabulate c s) = s_all s.
+Proof. unfold spec_tabulate, s_all. destruct (c_use_grids c); cbn [s_tab s_pend]; rewrite ?app_nil_r; reflexivity. Qed.
+
+Lemma rebin_inv c g0 g' m s : cfg_ok c -> geom_ok c g0 ->
+  Inv c g0 m s -> rebin_ok c g' (s_all s) ->
+  Inv c (next_base c g0 (ERestart (Some g'))) (restart_state Rops c m (Some g')) (spec_restart c s (Some g')).
+Proof.
+  intros Hok Hg0 HI Hr. pose proof (restart_inv c Hok g0 Hg0 m s HI) as H1.
+  unfold restart_state, spec_restart in *. cbn [next_base].
+  set (m1 := read_state Rops c (save_state Rops c m)) in *. set (s1 := spec_tabulate c s) in *.
+  unfold rebin_state. destruct (c_use_grids c) eqn:G; [|exact H1].
+  destruct (Hr G) as (Ek & Hb' & Hcl'). rewrite Ek. cbn [andb].
+  assert (Hp1 : s_pend s1 = []) by (unfold s1; apply tabulate_pend; exact G).
+  destruct H1 as [Hnew Hold Hsub Hgeom Hgrel He Hg Hoo Hon Hng Hcl].
+  pose proof Hok as (Hvars & Hsig & Hgv0). destruct (Hgv0 G) as [_ Hgv].
+  assert (Hlen' : length g' = length (c_vars c)) by (symmetry; apply (All2_length _ _ _ Hb')).
+  assert (Hclear1 : forall h, In h (s_tab s1) -> All3 (clear_var c) (c_vars c) g' (h_c h)).
+  { intros h Hin. apply Hcl'. rewrite <- (s_all_save c s). fold s1. unfold s_all. apply in_or_app. left. exact Hin. }
+  constructor; cbn [st_new st_old st_e st_g st_geom st_off_old st_off_new s_tab s_pend s_geom].
+  - symmetry. exact Hp1.
+  - intros _. apply (Hold Ek).
+  - rewrite (Hold Ek). apply Dropped_refl.
+  - reflexivity.
+  - intros _. apply All3_refl_gstep. exact Hlen'.
+  - intros ix Hix. rewrite (Hold Ek). destruct (s_tab s1) as [|h0 t0] eqn:Et.
+    + rewrite Esum_nil.
+      destruct (index_ok (gsizes (st_geom m1)) (remap_ix Rops (c_vars c) g' (st_geom m1) ix)) eqn:Eo; [|reflexivity].
+      rewrite Hgeom in Eo. rewrite Hgeom, (He _ Eo), ?Et, Esum_nil. reflexivity.
+    + rewrite hills_energy_R. cbn [nadd n0 Rops]. lra.
+  - intros ix k Hix Hk. rewrite (Hold Ek). destruct (s_tab s1) as [|h0 t0] eqn:Et.
+    + rewrite Fsum_nil.
+      destruct (index_ok (gsizes (st_geom m1)) (remap_ix Rops (c_vars c) g' (st_geom m1) ix)) eqn:Eo; [|cbn; lra].
+      rewrite Hgeom in Eo. rewrite Hgeom, (Hg _ _ Eo Hk), ?Et, Fsum_nil. lra.
+    + rewrite sc_R, scR_nth, hills_force_R by (rewrite fzero_scalar by assumption; reflexivity).
+      cbn [nsub n0 nth Rops]. lra.
+  - intros _. rewrite (Hold Ek). destruct (s_tab s1) as [|h0 t0] eqn:Et.
+    + rewrite (Dropped_nil _ _ (Hoo G)). apply D_nil.
+    + apply Dropped_filter. intros h Hin Hn. destruct h as [it w x].
+      unfold near_hill in Hn. cbn [h_c] in Hn.
+      apply (not_near_far c Hok g' x G Hb' Hgv Hlen'); [|exact Hn].
+      destruct (All3_length _ _ _ _ (Hclear1 _ Hin)) as [_ Hl]. symmetry. exact Hl.
+  - intros _. rewrite Hp1. apply D_nil.
+  - intros G'. rewrite G in G'. discriminate G'.
+  - intros _ h Hin. unfold s_all in Hin. cbn [s_tab s_pend] in Hin. rewrite Hp1, app_nil_r in Hin. apply Hclear1. exact Hin.
+Qed.
+
+Lemma next_base_ok c g0 e s : geom_ok c g0 ->
+  match e with ERestart (Some g') => rebin_ok c g' (s_all s) | _ => True end ->
+  geom_ok c (next_base c g0 e).
+Proof.
+  intros Hg0 He G. destruct e as [i| |[g'|]]; cbn [next_base]; try (apply Hg0; exact G).
+  rewrite G. destruct (He G) as (_ & Hb & _). exact Hb.
+Qed.
+
+Lemma run_inv_gen c : cfg_ok c -> forall hist g0 m s,
+  geom_ok c g0 -> Inv c g0 m s -> hist_ok c g0 s hist ->
+  Inv c (fold_left (next_base c) hist g0) (fold_left (apply_event Rops c) hist m) (fold_left (spec_event c) hist s) /\
+  geom_ok c (fold_left (next_base c) hist g0).
+Proof.
+  intros Hok. induction hist as [|e hist IH]; intros g0 m s Hg0 HI HH; cbn [fold_left].
+  - split; assumption.
+  - cbn [hist_ok] in HH. destruct HH as [He Hr]. apply IH.
+    + apply (next_base_ok c g0 e s Hg0). destruct e as [i| |[g'|]]; try exact I. exact He.
+    + destruct e as [i| |[g'|]].
+      * cbn [next_base]. apply (event_inv c Hok g0 Hg0 m s (EStep i) HI He).
+      * cbn [next_base]. apply (event_inv c Hok g0 Hg0 m s ESave HI I).
+      * apply (rebin_inv c g0 g' m s Hok Hg0 HI He).
+      * cbn [next_base]. apply (event_inv c Hok g0 Hg0 m s (ERestart None) HI I).
+    + exact Hr.
+Qed.
+
+Lemma cfg_geom0_ok c : cfg_ok c -> geom_ok c (c_geom0 c).
+Proof. intros (_ & _ & H) G. destruct (H G) as [Hb _]. exact Hb. Qed.
+
+Lemma run_inv c hist : cfg_ok c -> history_ok c hist ->
+  Inv c (final_base c hist) (final_state Rops c hist) (spec_run c hist) /\
+  geom_ok c (final_base c hist).
+Proof.
+  intros Hok HH. unfold final_base, final_state, spec_run.
+  apply (run_inv_gen c Hok hist (c_geom0 c)); [apply cfg_geom0_ok; exact Hok| |exact HH].
+  apply init_inv; [apply cfg_geom0_ok; exact Hok|reflexivity].
+Qed.
+
+Lemma hist_ok_app c h1 : forall g0 s h2,
+  hist_ok c g0 s (h1 ++ h2) <->
+  hist_ok c g0 s h1 /\ hist_ok c (fold_left (next_base c) h1 g0) (fold_left (spec_event c) h1 s) h2.
+Proof.
+  induction h1 as [|e h1 IH]; intros g0 s h2; cbn [app hist_ok fold_left]; [tauto|].
+  rewrite IH. tauto.
+Qed.
 
 (* ================================================================== statements at the level of histories *)
 
@@ -342,6 +538,9 @@ Proof. unfold final_state. rewrite fold_left_app. reflexivity. Qed.
 
 Lemma spec_run_snoc c hist e : spec_run c (hist ++ [e]) = spec_event c (spec_run c hist) e.
 Proof. unfold spec_run. rewrite fold_left_app. reflexivity. Qed.
+
+Lemma final_base_snoc c hist e : final_base c (hist ++ [e]) = next_base c (final_base c hist) e.
+Proof. unfold final_base. rewrite fold_left_app. reflexivity. Qed.
 
 (* energy, and force on variable k (a list of components), returned by update() at the step with input i after
    the history hist *)
@@ -367,46 +566,53 @@ Proof.
   unfold calc_forces. apply nth_map_seq. exact H.
 Qed.
 
-Lemma schedule_holds c hist : cfg_ok c -> Forall (adm_event c) hist ->
+Lemma last_step_adm c hist i : history_ok c (hist ++ [EStep i]) -> adm c (final_base c (hist ++ [EStep i])) (i_x i).
+Proof.
+  unfold history_ok. intros H. apply hist_ok_app in H. destruct H as [_ H]. cbn [hist_ok] in H. destruct H as [H _].
+  rewrite final_base_snoc. cbn [next_base]. exact H.
+Qed.
+
+Lemma schedule_holds c hist : cfg_ok c -> history_ok c hist ->
   st_new (final_state Rops c hist) = s_pend (spec_run c hist) /\
-  st_old (final_state Rops c hist) = (if c_keep c then s_tab (spec_run c hist) else []) /\
+  (c_keep c = true -> st_old (final_state Rops c hist) = s_tab (spec_run c hist)) /\
+  Dropped (fun _ => True) (s_tab (spec_run c hist)) (st_old (final_state Rops c hist)) /\
   st_geom (final_state Rops c hist) = s_geom (spec_run c hist).
 Proof.
-  intros H1 H2. destruct (run_inv c H1 hist H2) as [Hnew Hold Hgeom _ _ _ _ _ _ _]. auto.
+  intros H1 H2. destruct (run_inv c hist H1 H2) as [[Hnew Hold Hsub Hgeom _ _ _ _ _ _ _] _]. auto.
 Qed.
 
-Lemma energy_holds c hist i : cfg_ok c -> Forall (adm_event c) (hist ++ [EStep i]) ->
+Lemma energy_holds c hist i : cfg_ok c -> history_ok c (hist ++ [EStep i]) ->
   out_energy c hist i = spec_energy c (spec_run c (hist ++ [EStep i])) (i_x i).
 Proof.
-  intros H1 H2. rewrite out_energy_eq. apply (energy_spec c H1); [apply run_inv; assumption|].
-  apply Forall_app in H2. destruct H2 as [_ H2]. inversion H2; subst. assumption.
+  intros H1 H2. rewrite out_energy_eq. destruct (run_inv c _ H1 H2) as [HI Hb].
+  apply (energy_spec c H1 _ Hb _ _ _ HI). apply last_step_adm. exact H2.
 Qed.
 
-Lemma force_holds c hist i k j : cfg_ok c -> Forall (adm_event c) (hist ++ [EStep i]) ->
+Lemma force_holds c hist i k j : cfg_ok c -> history_ok c (hist ++ [EStep i]) ->
   (k < length (c_vars c))%nat ->
   nth j (out_force c hist i k) 0 = spec_force c (spec_run c (hist ++ [EStep i])) (i_x i) k j.
 Proof.
-  intros H1 H2 Hk. rewrite out_force_eq by exact Hk. apply (force_spec c H1); [apply run_inv; assumption| |exact Hk].
-  apply Forall_app in H2. destruct H2 as [_ H2]. inversion H2; subst. assumption.
+  intros H1 H2 Hk. rewrite out_force_eq by exact Hk. destruct (run_inv c _ H1 H2) as [HI Hb].
+  apply (force_spec c H1 _ Hb _ _ _ _ _ HI); [|exact Hk]. apply last_step_adm. exact H2.
 Qed.
 
-Lemma grid_is_projected_sum c hist : cfg_ok c -> Forall (adm_event c) hist ->
+Lemma grid_is_projected_sum c hist : cfg_ok c -> history_ok c hist ->
   forall ix, index_ok (gsizes (s_geom (spec_run c hist))) ix = true ->
     st_e (final_state Rops c hist) ix =
       Esum (c_vars c) (s_tab (spec_run c hist)) (centre Rops (c_vars c) (s_geom (spec_run c hist)) ix) /\
     forall k, (k < length (c_vars c))%nat -> st_g (final_state Rops c hist) ix k =
       - Fsum (c_vars c) (s_tab (spec_run c hist)) (centre Rops (c_vars c) (s_geom (spec_run c hist)) ix) k 0.
 Proof.
-  intros H1 H2 ix Hix. destruct (run_inv c H1 hist H2) as [_ _ _ _ He Hg _ _ _ _].
+  intros H1 H2 ix Hix. destruct (run_inv c hist H1 H2) as [[_ _ _ _ _ He Hg _ _ _ _] _].
   split; [apply He; exact Hix|intros k Hk; apply Hg; assumption].
 Qed.
 
-(* the grids only grow, by whole bins, on the same lattice, and only along expandBoundaries variables and
-   beyond non-hard boundaries *)
-Lemma geometry_grows c hist : cfg_ok c -> Forall (adm_event c) hist -> c_use_grids c = true ->
-  All3 (fun v b b' => gstep v b b') (c_vars c) (c_geom0 c) (s_geom (spec_run c hist)).
+(* the grids only grow from the boundaries of the (last) configuration, by whole bins, on the same lattice, and
+   only along expandBoundaries variables and beyond non-hard boundaries *)
+Lemma geometry_grows c hist : cfg_ok c -> history_ok c hist -> c_use_grids c = true ->
+  All3 (fun v b b' => gstep v b b') (c_vars c) (final_base c hist) (s_geom (spec_run c hist)).
 Proof.
-  intros H1 H2 G. destruct (run_inv c H1 hist H2) as [_ _ _ Hgrel _ _ _ _ _ _]. apply Hgrel. exact G.
+  intros H1 H2 G. destruct (run_inv c hist H1 H2) as [[_ _ _ _ Hgrel _ _ _ _ _ _] _]. apply Hgrel. exact G.
 Qed.
 
 (* ---- the schedule itself ---- *)
@@ -420,9 +626,6 @@ Proof.
     cbn [s_tab s_pend spec_expand]; rewrite ?app_nil_r, ?app_assoc; reflexivity.
 Qed.
 
-Lemma s_all_save c s : s_all (spec_tabulate c s) = s_all s.
-Proof. unfold spec_tabulate, s_all. destruct (c_use_grids c); cbn [s_tab s_pend]; rewrite ?app_nil_r; reflexivity. Qed.
-
 Lemma deposited_snoc c hist i :
   s_all (spec_run c (hist ++ [EStep i])) =
   s_all (spec_run c hist) ++
@@ -433,11 +636,21 @@ Proof. rewrite spec_run_snoc. apply s_all_step. Qed.
 Lemma deposited_save c hist : s_all (spec_run c (hist ++ [ESave])) = s_all (spec_run c hist).
 Proof. rewrite spec_run_snoc. apply s_all_save. Qed.
 
+Lemma s_all_restart c s r : s_all (spec_restart c s r) = s_all s.
+Proof.
+  unfold spec_restart. destruct r as [g'|]; [|apply s_all_save].
+  destruct (c_use_grids c); [|apply s_all_save]. rewrite <- (s_all_save c s). reflexivity.
+Qed.
+
+Lemma deposited_restart c hist r : s_all (spec_run c (hist ++ [ERestart r])) = s_all (spec_run c hist).
+Proof. rewrite spec_run_snoc. apply s_all_restart. Qed.
+
 Fixpoint steps_of (hist : list eventR) : list inR :=
   match hist with
   | [] => []
   | EStep i :: r => i :: steps_of r
   | ESave :: r => steps_of r
+  | ERestart _ :: r => steps_of r
   end.
 
 (* without well-tempering: the deposited hills are one hill of height hillWeight per eligible step *)
@@ -449,10 +662,11 @@ Proof.
             s_all s ++ map (fun i => mkHill (i_it i) (c_weight c) (i_x i)) (filter (eligible c) (steps_of hist))).
   { induction hist as [|e hist IH]; intros s; cbn [fold_left].
     - cbn. rewrite app_nil_r. reflexivity.
-    - destruct e as [i|]; cbn [spec_event steps_of filter].
+    - destruct e as [i| |r]; cbn [spec_event steps_of filter].
       + rewrite IH, s_all_step. unfold spec_height. rewrite W.
         destruct (eligible c i); cbn [map]; rewrite <- app_assoc; reflexivity.
-      + rewrite IH, s_all_save. reflexivity. }
+      + rewrite IH, s_all_save. reflexivity.
+      + rewrite IH, s_all_restart. reflexivity. }
   rewrite Hgen. reflexivity.
 Qed.
 
@@ -470,6 +684,21 @@ Qed.
 
 Lemma tabulated_save c hist : c_use_grids c = true -> s_pend (spec_run c (hist ++ [ESave])) = [].
 Proof. intros G. rewrite spec_run_snoc. cbn [spec_event]. unfold spec_tabulate. rewrite G. reflexivity. Qed.
+
+Lemma tabulated_restart c hist r : c_use_grids c = true -> s_pend (spec_run c (hist ++ [ERestart r])) = [].
+Proof.
+  intros G. rewrite spec_run_snoc. cbn [spec_event]. unfold spec_restart, spec_tabulate. rewrite G.
+  destruct r; reflexivity.
+Qed.
+
+(* rebinGrids: the restart gives the grids the boundaries of the new configuration *)
+Lemma rebin_geometry c hist g' : c_use_grids c = true ->
+  s_geom (spec_run c (hist ++ [ERestart (Some g')])) = g' /\
+  s_tab (spec_run c (hist ++ [ERestart (Some g')])) = s_all (spec_run c hist).
+Proof.
+  intros G. rewrite spec_run_snoc. cbn [spec_event]. unfold spec_restart, spec_tabulate, s_all. rewrite G.
+  split; reflexivity.
+Qed.
 
 (* keepHills does not occur in the specification *)
 Definition set_keep (c : cfgR) (b : bool) : cfgR :=
@@ -491,7 +720,7 @@ Qed.
 
 Lemma spec_event_keep c b s e : spec_event (set_keep c b) s e = spec_event c s e.
 Proof.
-  destruct e as [i|]; cbn [spec_event]; [|reflexivity].
+  destruct e as [i| |r]; cbn [spec_event]; [|reflexivity|reflexivity].
   unfold spec_step, spec_expand. rewrite next_geom_keep. reflexivity.
 Qed.
 
@@ -502,17 +731,28 @@ Proof.
   rewrite spec_event_keep. apply IH.
 Qed.
 
-Lemma keep_hills_irrelevant c b hist i : cfg_ok c -> Forall (adm_event c) (hist ++ [EStep i]) ->
+Lemma keep_hills_irrelevant c b hist i : cfg_ok c ->
+  history_ok c (hist ++ [EStep i]) -> history_ok (set_keep c b) (hist ++ [EStep i]) ->
   out_energy (set_keep c b) hist i = out_energy c hist i /\
   forall k j, (k < length (c_vars c))%nat ->
     nth j (out_force (set_keep c b) hist i k) 0 = nth j (out_force c hist i k) 0.
 Proof.
-  intros H1 H2.
+  intros H1 H2 H2'.
   assert (H1' : cfg_ok (set_keep c b)) by exact H1.
-  assert (H2' : Forall (adm_event (set_keep c b)) (hist ++ [EStep i])) by exact H2.
   split.
   - rewrite (energy_holds _ _ _ H1' H2'), (energy_holds _ _ _ H1 H2), spec_run_keep. reflexivity.
   - intros k j Hk. rewrite (force_holds _ _ _ k j H1' H2' Hk), (force_holds _ _ _ k j H1 H2 Hk), spec_run_keep.
     reflexivity.
 Qed.
 
+(* histories without a rebinning restart: a list of admissible steps, saves and plain restarts *)
+Definition plain_event (c : cfgR) (e : eventR) : Prop :=
+  match e with EStep i => adm c (c_geom0 c) (i_x i) | ERestart (Some _) => False | _ => True end.
+
+Lemma plain_history_ok c hist : Forall (plain_event c) hist -> history_ok c hist.
+Proof.
+  unfold history_ok. generalize (mkS [] [] (c_geom0 c)).
+  induction hist as [|e hist IH]; intros s HF; cbn [hist_ok]; [exact I|].
+  inversion HF as [|e' l' He Hl]; subst.
+  destruct e as [i| |[g'|]]; cbn [plain_event next_base] in *; try contradiction; (split; [assumption|apply IH; exact Hl]).
+Qed.
